@@ -46,6 +46,7 @@ struct shared {
 };
 
 struct seen_slot *vrt_seen_tab;
+unsigned char *vrt_covmap;
 static struct shared *S;
 static struct vrt_scenario *scen;
 static int nworkers = 4;
@@ -507,7 +508,7 @@ static int do_replay(const char *path, int verbose)
 int main(int argc, char **argv)
 {
 	struct result *slots;
-	const char *out = NULL, *replay_dir = NULL, *replay = NULL, *sname = NULL;
+	const char *out = NULL, *replay_dir = NULL, *replay = NULL, *sname = NULL, *covfile = NULL;
 	int i, verbose = 0, pass, rc = 0;
 	pid_t *pids;
 	FILE *f;
@@ -551,6 +552,13 @@ int main(int argc, char **argv)
 			deadline_s = atof(argv[++i]);
 		else if (!strcmp(argv[i], "--out") && i + 1 < argc)
 			out = argv[++i];
+		else if (!strcmp(argv[i], "--covmap") && i + 1 < argc) {
+			covfile = argv[++i];
+			vrt_covmap = mmap(NULL, (size_t)(etext - __executable_start), PROT_READ | PROT_WRITE,
+					  MAP_SHARED | MAP_ANONYMOUS, -1, 0);
+			if (vrt_covmap == MAP_FAILED)
+				vrt_covmap = NULL;
+		}
 		else if (!strcmp(argv[i], "--replay-dir") && i + 1 < argc)
 			replay_dir = argv[++i];
 		else if (!strcmp(argv[i], "--replay") && i + 1 < argc)
@@ -664,6 +672,14 @@ int main(int argc, char **argv)
 	} else if (S->nviol)
 		rc = 1;
 
+	if (covfile && vrt_covmap && (f = fopen(covfile, "w"))) {
+		uintptr_t o;
+
+		for (o = 0; o < (uintptr_t)(etext - __executable_start); o++)
+			if (vrt_covmap[o])
+				fprintf(f, "%lx\n", (unsigned long)((uintptr_t)__executable_start + o));
+		fclose(f);
+	}
 	if (out && (f = fopen(out, "w"))) {
 		char buf[2048];
 		int exhaustive = !S->stop && !S->overflow_dev && !S->overflow_stack && !S->trunc_rec && !S->internal;
